@@ -804,6 +804,10 @@ class Engine:
         for path in list(self.process_paths.keys()):
             if starts_with(path, deletion):
                 del self.process_paths[path]
+                # The schedule entry goes with the process: a process
+                # created under the same path later in this batch must
+                # not inherit it (nor the update in flight).
+                self.front.pop(path, None)
 
         for path in list(self._step_paths):
             if starts_with(path, deletion):
